@@ -469,6 +469,8 @@ class Module(HasAccessibles):
                 self.errors.append(f"'{name}' has no property '{propname}'")
             except BadValueError as e:
                 self.errors.append(f'{name}.{propname}: {str(e)}')
+            if not self.export:  # the configuration of an accessible can not undo this
+                accessible.export = False
         # register the wire name only now: the configuration may have changed the export property
         accessible.fixExport()  # export=True -> name
         if accessible.export:
